@@ -192,14 +192,33 @@ static Db* buildTargets(const Case* cs, bool withF, char variant = 'M')
   return db;
 }
 
+// the active nodes of the target grid as a point Db (the grid "reduced" to its active nodes), in node order
+static Db* buildGridActiveNodes(const Case& cs)
+{
+  VectorDouble x, y, prior;
+  bool tsel = !cs.tsel.empty() && cs.tsel[0] != "none";
+  for (int k = 0; k < GNX * GNX; k++)
+  {
+    if (tsel && cs.tsel[k % (int)cs.tsel.size()] != "on") continue;
+    x.push_back((k % GNX) * GDX); y.push_back((k / GNX) * GDY); prior.push_back(200. + k);
+  }
+  if (x.empty()) return nullptr;
+  Db* db = Db::create();
+  db->addColumns(x, "x", ELoc::X, 0);
+  db->addColumns(y, "y", ELoc::X, 1);
+  db->addColumns(prior, "prior");
+  return db;
+}
+
 static DbGrid* buildGrid(const Case* cs)
 {
   DbGrid* g = DbGrid::create({GNX, GNX}, {GDX, GDY}, {0., 0.});
   if (cs != nullptr && cs->tcase)
   {
-    VectorDouble prior(9), sel(9);
+    int nn = GNX * GNX;
+    VectorDouble prior(nn), sel(nn);
     bool tsel = !cs->tsel.empty() && cs->tsel[0] != "none";
-    for (int k = 0; k < 9; k++)
+    for (int k = 0; k < nn; k++)
     {
       prior[k] = 200. + k;
       // the selection pattern of the 5 targets is spread over the 9 nodes
@@ -226,10 +245,16 @@ static Db* buildOnTargets()
 static DbGrid* buildOnGrid() { return DbGrid::create({CGNX, CGNY}, {1., 1.}, {0., 0.}); }
 
 // a fresh model for every call (no state shared between calls)
-static Model* makeModel(const Case& cs, int irf, bool expo = false)
+// kind 0: structures + nugget; 1 (expo): structure only (exponential); 2: nugget effect only
+static Model* makeModel(const Case& cs, int irf, int expo = 0)
 {
   Model* m;
-  if (expo)
+  if (expo == 2)
+  {
+    if (cs.nvar == 1) m = Model::createFromParam(ECov::NUGGET, 0., 2.);
+    else m = Model::createFromParam(ECov::NUGGET, 0., 1., 1., VectorDouble(), {2., 0.8, 0.8, 1.5});
+  }
+  else if (expo == 1)
   {
     // position-free band process (migration): no array indexed by the projected coordinate
     if (cs.nvar == 1) m = Model::createFromParam(ECov::EXPONENTIAL, 8., 2.);
@@ -508,7 +533,7 @@ static Res runOp(const Case& cs, const std::string& op, Db* db, char variant, co
   else if (op == "simtub" || op == "simtub_pt" || op == "simtub_exp")
   {
     Db* tg = (op != "simtub_pt") ? (Db*)buildGrid(nullptr) : buildTargets(nullptr, cs.hasF);
-    Model* m = makeModel(cs, 0, op == "simtub_exp");
+    Model* m = makeModel(cs, 0, op == "simtub_exp" ? 1 : 0);
     ANeigh* ng = makeNeigh("u");
     int nc0 = tg->getColumnNumber();
     int err = simtub(db, tg, m, ng, 2, 52931 + SEED, 8);
@@ -591,9 +616,21 @@ static Res runTargetOp(const Case& cs, const std::string& op, Db* db, char varia
 {
   Res r;
   if (db == nullptr) { r.st = "empty"; return r; }
-  bool grid = (op == "t_simtub_grid");
-  if (grid && variant == 'R') { r.st = "n/a"; return r; }
-  Db* tg = grid ? (Db*)buildGrid(&cs) : buildTargets(&cs, false, variant);
+  // turning bands: t_sim_<c|n>_<p|g>_<sn|s|n> = conditional or not, point or grid target, model
+  bool sim = op.rfind("t_sim_", 0) == 0;
+  bool cond = sim && op[6] == 'c';
+  bool grid = sim && op[8] == 'g';
+  std::string mod = sim ? op.substr(10) : "";
+  int mkind = mod == "s" ? 1 : mod == "n" ? 2 : 0;
+  Db* tg;
+  if (grid && variant == 'R')
+  {
+    // a grid cannot be reduced; its active nodes as points are comparable for the nugget-only model
+    if (mkind != 2) { r.st = "n/a"; return r; }
+    tg = buildGridActiveNodes(cs);
+  }
+  else
+    tg = grid ? (Db*)buildGrid(&cs) : buildTargets(&cs, false, variant);
   if (tg == nullptr) { r.st = "empty"; return r; }
   int nc0 = tg->getColumnNumber();
   int err = 0;
@@ -604,18 +641,13 @@ static Res runTargetOp(const Case& cs, const std::string& op, Db* db, char varia
     err = kriging(db, tg, m, ng, EKrigOpt::POINT, true, true, true);
     delete ng; delete m;
   }
-  else if (op == "t_simtub" || op == "t_simtub_grid")
+  else if (sim)
   {
-    Model* m = makeModel(cs, 0);
+    Model* m = makeModel(cs, 0, mkind);
     ANeigh* ng = makeNeigh("u");
-    err = simtub(db, tg, m, ng, 2, 52931 + SEED, 8);
+    if (cond) err = simtub(db, tg, m, ng, 2, 52931 + SEED, 8);
+    else err = simtub(nullptr, tg, m, nullptr, 2, 52931 + SEED, 8);
     delete ng; delete m;
-  }
-  else if (op == "t_simtub_nc")
-  {
-    Model* m = makeModel(cs, 0);
-    err = simtub(nullptr, tg, m, nullptr, 2, 52931 + SEED, 8);
-    delete m;
   }
   else if (op == "t_migrate" || op == "t_migrate_ball")
     err = migrate(db, tg, "z1", 1, VectorDouble(), false, false, op == "t_migrate_ball");
